@@ -410,7 +410,8 @@ pub fn worker(params: &Value, case: &Value) -> Value {
                 // UPDATE is applied in place and never undone (C03 KF-update-in-place): a failing UPDATE keeps the
                 // rows it had already changed
                 Some("KT-failed-update-keeps-changed-rows")
-            } else if up.starts_with("INSERT") && m.contains("of a session") && m.contains("sees different data") {
+            } else if up.starts_with("INSERT") && sql.contains(") , (") && m.contains("of a session") && m.contains("sees different data") {
+                // (multi-row statements only: a single-row INSERT that fails and leaves ITS OWN row behind is not this finding)
                 // no statement-level rollback inside an explicit transaction: the rows written before the failing
                 // row stay visible to the session (and are committed with it)
                 Some("KT-failed-insert-in-session-keeps-earlier-rows")
